@@ -288,6 +288,7 @@ def run(ctx):
     _writer_presence(ctx, repo)
     _reader_type_guards(ctx, repo)
     _dedupe_keys(ctx, repo)
+    _tag_order(ctx, repo)
     shared.module_state_rule(ctx, 'C16.i', ['cirq-google/cirq_google/api/', 'cirq-google/cirq_google/serialization/', 'cirq-google/cirq_google/study/', 'cirq-google/cirq_google/devices/'], floor=3)
     ctx.decided.append('C16.i converters keep no state between calls: module-level containers of the serialization packages are never written from inside a function')
 
@@ -1310,3 +1311,24 @@ def _dedupe_keys(ctx, repo):
                        'carries them, so a later equal moment with different tags is read back with the tags of the first', m.rel, s.lineno)
     if n == 0:
         raise AnalysisError('C16.l: no moment / circuit key in raw_constants found')
+
+
+def _tag_order(ctx, repo):
+    """C16.m - the reader rebuilds an operation's tags in the order they were written (TaggedOperation equality is order-sensitive)."""
+    ctx.decided.append('C16.m operation tags come back in written order: the list read from tag_indices is not thinned by "already on the operation" unless the operation is stripped of its '
+                       'restored tags first (otherwise tags restored from gate-specific fields jump to the front)')
+    ctx.rule('C16.m', 'tag order: in CircuitSerializer._deserialize_gate_op, a comprehension / loop over operation_proto.tag_indices that skips tags found in <op>.tags is followed by a rebuild '
+             'from the untagged operation (…untagged … with_tags(*restored, *listed)); skipping and then appending to the already tagged operation moves restored tags in front of the others',
+             floor=1, style='MPT')
+    ci = repo.cls('cirq_google.serialization.circuit_serializer.CircuitSerializer')
+    fn = repo.method(ci.qual, '_deserialize_gate_op')
+    comps = [c for c in ast.walk(fn) if isinstance(c, (ast.ListComp, ast.GeneratorExp)) and any('tag_indices' in ast.unparse(g.iter) for g in c.generators)]
+    if not comps:
+        raise AnalysisError('_deserialize_gate_op: the tag_indices comprehension vanished')
+    for k, c in enumerate(comps, 1):
+        filt = [i for g in c.generators for i in g.ifs if any(isinstance(x, ast.Compare) and isinstance(x.ops[0], ast.NotIn) and ast.unparse(x.comparators[0]).endswith('.tags') for x in ast.walk(i))]
+        strips = any(isinstance(s, ast.Assign) and isinstance(s.value, ast.Attribute) and s.value.attr == 'untagged' and s.lineno > c.lineno for s in ast.walk(fn))
+        ok = not filt or strips
+        ctx.ob('C16.m', f'{ci.qual}._deserialize_gate_op:tag_indices#{k}', ok, '' if ok else
+               f'`{ast.unparse(filt[0])[:70]}` drops listed tags that were already restored and the rest is appended behind them: with_tags(\'a\', PhysicalZTag()) is read back as '
+               '(PhysicalZTag(), \'a\'), which is a different TaggedOperation', ci.mod.rel, c.lineno)
